@@ -37,12 +37,13 @@ theorem tagStates_gen : TagStatesOk Gen.Syntax.table = true := by decide +kernel
 
 theorem tagStatesWitness_gen : tagStatesWitness Gen.Syntax.table = [] := by decide +kernel
 
-/-! Regression examples for the side-condition itself (tag_name_state = state 31, arms: whitespace, `>`, `/`, eof, `_`):
-a harmless reordering is accepted, a reordering that changes which arm a byte selects and an exchange of two arms'
-actions are rejected, and the witness names the state and the input class (94 = 2·47: the byte `/`). -/
-example : TagStatesOk (Gen.Syntax.table.modArms 31 (swapArms 1 2)) = true := by decide +kernel
-example : tagStatesWitness (Gen.Syntax.table.modArms 31 (swapArms 2 4)) = [("tag_name_state", 94)] := by decide +kernel
-example : tagStatesWitness (Gen.Syntax.table.modArms 31 (swapBodies 1 2)) = [("tag_name_state", 94)] := by decide +kernel
+/-! Regression examples for the side-condition itself (tag_name_state = state 31, arms for whitespace, `>`, `/`, eof, `_`;
+the mutations find the arms by pattern, so the examples do not depend on the order the Rust lists them in):
+a harmless reordering is accepted; a reordering that changes which arm a byte selects (`/` after the catch-all) and an
+exchange of two arms' actions are rejected, and the witness names the state and the input class (94 = 2·47: the byte `/`). -/
+example : TagStatesOk (Gen.Syntax.table.modArms 31 (swapArms (.byte 62) (.byte 47))) = true := by decide +kernel
+example : tagStatesWitness (Gen.Syntax.table.modArms 31 (swapArms (.byte 47) .any)) = [("tag_name_state", 94)] := by decide +kernel
+example : tagStatesWitness (Gen.Syntax.table.modArms 31 (swapBodies (.byte 47) .eof)) = [("tag_name_state", 94)] := by decide +kernel
 /-- the byte classes are compared as sets of bytes -/
 example : TagStatesOk { Gen.Syntax.table with whitespace := [12, 9, 13, 10, 32], alpha := [(65, 90), (97, 109), (110, 122)] } = true := by
   decide +kernel
